@@ -31,6 +31,9 @@ pub enum Op {
     SetSwapMode { mode: u8 },
     SetOracleMode { mode: u8 },
     SetPrice { atomics: Amt },
+    /// reward delivery as the dispatcher performs it: `amt` of the reward coin reaches the reward
+    /// contract, then the dispatcher address calls its UpdateGlobalIndex (one atomic step)
+    Deliver { amt: Amt },
 }
 
 #[derive(Clone, Debug, PartialEq, Serialize, Deserialize)]
@@ -121,6 +124,17 @@ pub fn apply(c: &mut Chain, a: &Action) -> Outcome {
         Op::SetOracleMode { mode: m } => {
             c.oracle_mode = mode(*m);
             Outcome { res: Ok(vec![]), supply_delta: delta, is_env: true }
+        }
+        Op::Deliver { amt } => {
+            let snap = c.clone();
+            c.credit(REWARD, KUSD, amt.0);
+            let res = c.tx(DISP, REWARD, &json!({"update_global_index":{}}), &[]);
+            if res.is_err() {
+                *c = snap;
+            } else {
+                delta.insert(KUSD.into(), amt.0 as i128);
+            }
+            Outcome { res, supply_delta: delta, is_env: false }
         }
         Op::SetPrice { atomics } => {
             c.price = atomics.0;
@@ -237,6 +251,9 @@ pub fn accrue(v: &str, denom: &str, amt: u128) -> Action {
 }
 pub fn rogue(from: &str, to: &str, denom: &str, amt: u128) -> Action {
     Action { label: format!("rogue_transfer({}->{},{}{})", from, to, amt, denom), op: Op::BankSend { from: from.into(), to: to.into(), denom: denom.into(), amt: Amt(amt) }, dev: 1 }
+}
+pub fn deliver(amt: u128) -> Action {
+    Action { label: format!("deliver_rewards({}kusd)", amt), op: Op::Deliver { amt: Amt(amt) }, dev: 0 }
 }
 pub fn bank_send(from: &str, to: &str, denom: &str, amt: u128) -> Action {
     Action { label: format!("bank_send({}->{},{}{})", from, to, amt, denom), op: Op::BankSend { from: from.into(), to: to.into(), denom: denom.into(), amt: Amt(amt) }, dev: 0 }
